@@ -553,3 +553,86 @@ for _k in ('response', 'stream', 'channel', 'fnf'):
                 assumptions=['reassembly is used through its C03 contract: the frame completing a fragmented request makes the cache '
                              'return the whole request frame (class of the first fragment)',
                              'send_error is used through its contract (e.send_payload_error_complete)'])(_reuse_end_to_end(_k, _fr))
+
+
+# --------------------------------------------------------------------------- C12: the library's own exceptions through the receiver
+
+def _library_exception(cname):
+    """Whatever exception class of rsocket/exceptions.py frame handling raises - constructed by its REAL constructor, as
+    the library constructs it - the receiver turns it into exactly one ERROR frame on the offending stream and goes on
+    (transport errors excepted: they end the connection).  In particular formatting / converting the exception
+    (str(), .data, .error_code) must not itself fail."""
+    def run(E):
+        sock, table, ctable = mk_endpoint(E)
+        cls = E.lookup('rsocket/exceptions.py::' + cname)
+        init, _ = cls.lookup('__init__')
+        args = []
+        if init is not None and hasattr(init, 'node'):
+            for p in init.node.args.args[1:]:
+                if p.arg == 'error_code':
+                    codes = E.lookup('rsocket/error_codes.py::ErrorCode').members
+                    args.append(codes[sorted(codes)[E.path.choice(len(codes), 'code')]])
+                elif p.arg in ('stream_id', 'mimetype_id', 'auth_type_id', 'frame_type_id'):
+                    args.append(E.fresh_int(p.arg, 0, 0x7FFFFFFF))
+                elif p.arg == 'data':
+                    args.append([None, 'text'][E.path.choice(2, 'data')])
+                else:
+                    args.append('some-' + p.arg)
+            n_default = len(init.node.args.defaults)
+            if n_default and E.path.choice(2, 'defaults') == 1:
+                args = args[:len(args) - n_default]
+        exc = E.call(cls, args)
+        sid = E.fresh_int('sid', 0, 0x7FFFFFFF)
+        f1 = SOpaque('frame', 'frame1', attrs={'stream_id': sid})
+        f2 = SOpaque('frame', 'frame2', attrs={'stream_id': E.fresh_int('sid2', 0, 0x7FFFFFFF)})
+        transport = SOpaque('transport', 'transport')
+        tf = aio.new_future(E, 'result', transport)
+        E.stubs[SERVER + '._current_transport'] = lambda E_, f, a, k: tf
+        rounds = [0]
+
+        def next_gen(E_, o, m, a, k):
+            rounds[0] += 1
+            return aio.Awaitable('ready', result=[f1, f2] if rounds[0] == 1 else None)
+        log = OpaqueLog(E, returns={'next_frame_generator': next_gen})
+        handled = []
+
+        def hnf(E_, fn, a, k):
+            handled.append(a[1])
+            if a[1] is f1:
+                raise PyExc(exc)
+            return aio.Awaitable('ready')
+        E.stubs[HNF] = hnf
+        sent = []
+        E.stubs[BASE + '.send_frame'] = lambda E_, fn, a, k: sent.append(a[1])
+        is_transport = cls.issubclass(E.lookup('rsocket/exceptions.py::RSocketTransportError'))
+        P = E.prove
+        try:
+            E.await_value(E.call(E.getattr(E.lookup(BASE), '_receiver_listen'), [sock]))
+        except PyExc as e:
+            E.cover('left-the-loop')
+            P('library_exception:only_a_transport_error_ends_the_receiver[%s]' % cname, is_transport and e.value is exc)
+            return
+        E.cover('contained')
+        P('library_exception:contained[%s]' % cname, not is_transport)
+        P('library_exception:next_frame_still_processed', handled == [f1, f2])
+        P('library_exception:answered_with_exactly_one_ERROR_on_the_offending_stream',
+          len(sent) == 1 and is_frame(sent[0], 'ErrorFrame') and E.getattr(sent[0], 'stream_id') is sid)
+        if len(sent) == 1:
+            d = E.getattr(sent[0], 'data')
+            P('library_exception:ERROR_data_is_bytes_or_absent[serialisable]', d is None or is_byteslike(d))
+    return run
+
+
+def _register_library_exceptions():
+    import ast as _ast
+    import os as _os
+    from pyvc.engine import REPO_ROOT
+    src = open(_os.path.join(_os.environ.get('PYVC_REPO', REPO_ROOT), 'rsocket', 'exceptions.py')).read()
+    names = [n.name for n in _ast.parse(src).body if isinstance(n, _ast.ClassDef)]
+    for nm in names:
+        harness('e.receiver.library_exception[%s]' % nm, ['C12'], functions=[RL, 'rsocket/frame.py::exception_to_error_frame', BASE + '.send_error'],
+                assumptions=['exception classes are taken from rsocket/exceptions.py as it is on this run; each is constructed by its own '
+                             'constructor with arbitrary arguments'])(_library_exception(nm))
+
+
+_register_library_exceptions()
